@@ -5,7 +5,10 @@ package main
 // obligation, so `unsat` on it is a sound discharge; any other answer falls
 // back to the quantified query.
 
-import "sort"
+import (
+	"sort"
+	"strings"
+)
 
 type qelim struct {
 	skolems []*Term
@@ -107,8 +110,14 @@ func (q *qelim) skolemise(t *Term, prove bool) *Term {
 		r = Implies(q.skolemise(t.Args[0], !prove), q.skolemise(t.Args[1], prove))
 	case "ite":
 		if hasQuant(t.Args[0]) {
-			q.failed = true
-			return t
+			if t.S != BoolS {
+				q.failed = true
+				return t
+			}
+			// boolean ite with a quantified condition: (c => a) and (not c => b)
+			r = And(Implies(q.skolemise(t.Args[0], !prove), q.skolemise(t.Args[1], prove)),
+				Implies(Not(q.skolemise(t.Args[0], prove)), q.skolemise(t.Args[2], prove)))
+			break
 		}
 		r = Ite(t.Args[0], q.skolemise(t.Args[1], prove), q.skolemise(t.Args[2], prove))
 	case "=":
@@ -223,6 +232,14 @@ func (q *qelim) instantiate1(t *Term, prove bool, depth int) *Term {
 	case "=>":
 		return Implies(q.instantiate(t.Args[0], !prove, depth), q.instantiate(t.Args[1], prove, depth))
 	case "ite":
+		if hasQuant(t.Args[0]) {
+			if t.S != BoolS {
+				q.failed = true
+				return t
+			}
+			return And(Implies(q.instantiate(t.Args[0], !prove, depth), q.instantiate(t.Args[1], prove, depth)),
+				Implies(Not(q.instantiate(t.Args[0], prove, depth)), q.instantiate(t.Args[2], prove, depth)))
+		}
 		return Ite(t.Args[0], q.instantiate(t.Args[1], prove, depth), q.instantiate(t.Args[2], prove, depth))
 	case "forall", "exists":
 		goalLike := (t.Op == "forall") == prove
@@ -255,7 +272,18 @@ func (q *qelim) instantiate1(t *Term, prove bool, depth int) *Term {
 			}
 			cands = uniq
 			if len(cands) > 40 {
-				cands = cands[:40]
+				// keep every skolem constant (a hypothesis guarded by its own skolemised condition needs it)
+				keep := cands[:40:40]
+				inKeep := map[*Term]bool{}
+				for _, c := range keep {
+					inKeep[c] = true
+				}
+				for _, c := range cands[40:] {
+					if c.Op == "var" && strings.HasPrefix(c.Name, "sk!") && !inKeep[c] && len(keep) < 80 {
+						keep = append(keep, c)
+					}
+				}
+				cands = keep
 			}
 		}
 		var parts []*Term
